@@ -192,6 +192,15 @@ func TestC14(t *testing.T) {
 		}})
 }
 
+func TestC15(t *testing.T) {
+	simCheck(t, spec{Prop: "C15", Profiles: []string{"live", "conf", "snap", "flow"}, Steps: [2]int{200, 500}, Liveness: true,
+		RuleText: caseText + "then the fault-free suffix (all members of the committed config restarted, removed nodes stopped, links healed, every message delivered FIFO, snapshot outcomes reported, round-robin ticks for 60 x max(ElectionTick) rounds, fresh proposals and a ReadIndex at every member at half time) and the convergence oracle; non-trivial = the suffix started from a state with no leader / two leaders / a node down / an uncommitted tail / a follower paused or in StateSnapshot / a pending transfer / queued reads / a joint config / a partition",
+		Rule: func(c *sim.CaseStats) bool {
+			return has(c, "live.start_no_leader", "live.start_two_leaders", "live.start_node_down", "live.start_uncommitted_tail", "live.start_follower_in_snapshot",
+				"live.start_follower_paused", "live.start_pending_transfer", "live.start_queued_reads", "live.start_joint", "live.start_partitioned", "live.start_unstable_entries")
+		}})
+}
+
 func TestC16(t *testing.T) {
 	simCheck(t, spec{Prop: "C16", Profiles: []string{"flow"}, Steps: [2]int{300, 900},
 		RuleText: caseText + "non-trivial = a follower's inflight window was full, or a multi-entry append was sent, or a proposal was dropped and another accepted",
